@@ -158,6 +158,25 @@ def parseAct (j : Json) : R (Act V × Option Fault) := do
   | "seterr" => return (.seterr (← fldStr j "name"), f)
   | a => throw s!"bad action {a}"
 
+/-- an element of a history: an action of the module, or `{"a": "wipe", "depth": k}`: the tree below the `k`-th directory
+on the way from the log directory (`k = 0`) to the persistent file is removed -/
+def parsePAct (tgt : Path) (j : Json) : R (PAct V) := do
+  if (← fldStr j "a") == "wipe" then
+    return .wipe ((parentDir tgt).take (← fldNat j "depth"))
+  let (a, f) ← parseAct j
+  return .act a f
+
+/-- canonical names: the file derived from equipment id and module name is `T`, its temporary neighbour `T.tmp` -/
+def nameOf (tgt : Path) (p : Path) : String :=
+  if p = tgt then "T" else if p = tmpFile tgt then "T.tmp" else "/".intercalate p
+
+def mapOp (f : Path → String) : FsOp Path → FsOp String
+  | .openTrunc p => .openTrunc (f p)
+  | .write p c => .write (f p) c
+  | .close p => .close (f p)
+  | .rename a b => .rename (f a) (f b)
+  | .remove p => .remove (f p)
+
 def jpairs (l : List (String × V)) : Json := jarr (l.map (fun (k, v) => jarr [Json.str k, Json.str v]))
 
 def opJson : FsOp String → List Json
@@ -169,18 +188,23 @@ def opJson : FsOp String → List Json
 
 def evJson (e : Ev String) : Json := jarr (opJson e.op ++ (if e.failed then [Json.str "FAULT"] else []))
 
-def stepJson (o : StepOut String JsonNumber V) (fs : FS String) : Json :=
-  Json.mkObj [("evs", jarr (o.evs.map evJson)), ("writes", jpairs o.writes), ("raised", Json.bool o.raised),
+/-- `dirs`: which of the directories from the log directory down to the directory of the file exist -/
+def stepJson (tgt : Path) (o : StepOut Path JsonNumber V) (fs : FS Path) (dirs : List Path) : Json :=
+  Json.mkObj [("evs", jarr (o.evs.map (fun e => evJson ⟨mapOp (nameOf tgt) e.op, e.failed⟩))), ("writes", jpairs o.writes),
+    ("raised", Json.bool o.raised),
     ("values", jpairs (o.ms.params.map (fun p => (p.name, p.value)))), ("writeDict", jpairs o.ms.writeDict),
     ("hooks", jstrs o.ms.hooks),
-    ("target", jbytes (fs "T")), ("tmp", jbytes (fs "T.tmp"))]
+    ("target", jbytes (fs tgt)), ("tmp", jbytes (fs (tmpFile tgt))),
+    ("dirs", jarr ((prefixes (parentDir tgt)).map (fun d => Json.bool (decide (d ∈ dirs)))))]
 
-def runHist (env : Env String JsonNumber V) : MState JsonNumber V → FS String → List (Act V × Option Fault) → List Json
-  | _, _, [] => []
-  | ms, fs, (a, f) :: rest =>
-    let o := act env ms (fs env.tgt) a f
-    let fs' := applyEvs fs o.evs
-    stepJson o fs' :: runHist env o.ms fs' rest
+def runHist (env : Env Path JsonNumber V) : PWorld JsonNumber V → List (PAct V) → List Json
+  | _, [] => []
+  | w, a :: rest =>
+    let (o, w') := PWorld.step env w a
+    stepJson env.tgt o w'.fs w'.dirs :: runHist env w' rest
+
+def parsePath (j : Json) : R Path := do (← arr j).mapM (·.getStr?)
+def jpath (p : Path) : Json := jstrs p
 
 def parseObs (j : Json) : R (StartObs V) := do
   return { name := ← fldStr j "name", persistent := ← fldBool j "persistent", given := ← fldBool j "given",
@@ -195,17 +219,40 @@ def handle (j : Json) : R Json := do
   match k with
   | "hist" =>
     -- start-up followed by a history; answers one object per step (step 0 = start-up)
-    let env := mkEnv (← parseTables (← fld j "tables"))
+    -- `eq`, `mod`: equipment id and module name (the place of the file is derived from them, `Small/PersistPlace`);
+    -- `dirs0`: which directories exist before, from the log directory down to the directory of the file
+    let eq := (j.getObjValAs? String "eq").toOption.getD "eq"
+    let mod := (j.getObjValAs? String "mod").toOption.getD "m"
+    let env := (mkEnv (← parseTables (← fld j "tables"))).placed eq mod
     let ps ← (← fldArr j "params").mapM parseParam
     let wd0 ← parsePairs (← fld j "wd0")
     let file ← optHex (← fld j "file")
     let stale ← optHex (← fld j "stale")
     let f0 ← parseFault (← fld j "fault")
-    let acts ← (← fldArr j "acts").mapM parseAct
-    let fs0 : FS String := fun p => if p = "T" then file else if p = "T.tmp" then stale else none
-    let o := startUp env ps wd0 file f0
+    let acts ← (← fldArr j "acts").mapM (parsePAct env.tgt)
+    let chain := prefixes (parentDir env.tgt)
+    let have0 ← match j.getObjVal? "dirs0" with
+      | .ok d => (← arr d).mapM (·.getBool?)
+      | .error _ => pure (chain.map (fun _ => true))
+    let ds0 := (chain.zip have0).filterMap (fun (d, b) => if b then some d else none)
+    let fs0 : FS Path := fun p => if p = env.tgt then file else if p = env.tmp then stale else none
+    let (o, ds1) := startUpAt env ds0 ps wd0 fs0 f0
     let fs1 := applyEvs fs0 o.evs
-    return Json.mkObj [("steps", jarr (stepJson o fs1 :: runHist env o.ms fs1 acts))]
+    return Json.mkObj [("steps", jarr (stepJson env.tgt o fs1 ds1 :: runHist env ⟨o.ms, fs1, ds1⟩ acts))]
+  | "place" =>
+    -- where the file of module `mod` of the node with equipment id `eq` lives (components below the log directory)
+    let tgt := persistentFile (← fldStr j "eq") (← fldStr j "mod")
+    return Json.mkObj [("file", jpath tgt), ("tmp", jpath (tmpFile tgt)), ("chain", jarr ((prefixes (parentDir tgt)).map jpath))]
+  | "judge_place" =>
+    -- one call that met no I/O failure: `tree` = every regular file below the log directory afterwards
+    let eq ← fldStr j "eq"; let mod ← fldStr j "mod"
+    let tree ← (← fldArr j "tree").mapM (fun e => do
+      match ← arr e with
+      | [p, c] => return ((← parsePath p), unhex (← c.getStr?))
+      | _ => throw "bad tree entry")
+    let o : PlaceObs := ⟨← fldBool j "raised", ← fldNat j "ops", tree⟩
+    return Json.mkObj [("ok", Json.bool (savedWhereverB eq mod (unhex (← fldStr j "new")) o)),
+                       ("stray", jarr ((strayFiles eq mod tree).map jpath)), ("file", jpath (persistentFile eq mod))]
   | "judge_snapshots" =>
     let old ← optHex (← fld j "old"); let new ← fldStr j "new"
     let snaps ← (← fldArr j "snaps").mapM optHex
